@@ -66,11 +66,11 @@ def random_ints(lower: int = -sys.maxsize, upper: int = sys.maxsize) -> Iterator
     # sample around the admissible value closest to zero, so that a bound beyond +-100 still leaves a window
     origin = min(max(0, lower), upper)
 
-    def between(limit: int) -> Iterator[int]:
+    def between(limit: int, count: int | None = None) -> Iterator[int]:
         low = max(origin - limit, lower)
         high = min(origin + limit, upper)
         if high >= low:
-            yield from (random.randint(low, high) for _ in range(0, limit))
+            yield from (random.randint(low, high) for _ in range(0, limit if count is None else count))
 
     if lower > upper:
         return
@@ -79,6 +79,8 @@ def random_ints(lower: int = -sys.maxsize, upper: int = sys.maxsize) -> Iterator
         yield from between(1)
         yield from between(10)
         yield from between(100)
+        # now and then the whole range: a filter that rejects every small value (not_in_p(*range(-100, 101))) can be met
+        yield from between(sys.maxsize, 10)
 
 
 def random_uuids() -> Iterator[UUID]:
